@@ -362,9 +362,41 @@ func c17NoReader(ctx *Ctx) {
 	p.verdict(ctx, 15, "after the client that did not read has gone", true, "after-client-that-does-not-read")
 }
 
+// c17FailedSession: clients speaking a protocol version the proxy accepts but the backend does not (proxy maximum DSEv1,
+// backend v4).  Every new (version, keyspace) pair makes the proxy create a session whose pools all fail critically;
+// whatever the client is told, the process must survive the requests that follow.
+func c17FailedSession(ctx *Ctx) {
+	var cfg c17Cfg
+	for _, c := range c17Cfgs {
+		if c.name == "max-dse1-backend-v4" {
+			cfg = c
+		}
+	}
+	p := startC17(cfg)
+	defer p.stop()
+	for i := 0; i < ctx.Scale(12, 60) && p.alive(); i++ {
+		cl, err := px.Dial(p.addr)
+		offending := true
+		if err == nil {
+			if cl.Startup(primitive.ProtocolVersionDse1, "") == nil {
+				_ = cl.Send(primitive.ProtocolVersionDse1, 1, &message.Query{Query: fmt.Sprintf("USE fs%d", i), Options: &message.QueryOptions{}})
+				_, _ = cl.Next(3 * time.Second)
+				for k := 0; k < 3; k++ {
+					_ = cl.Send(primitive.ProtocolVersionDse1, int16(2+k), &message.Query{Query: fmt.Sprintf("SELECT v FROM ks.t WHERE k = 'tok:fs%dx%d'", i, k), Options: &message.QueryOptions{}})
+					f, err := cl.Next(3 * time.Second)
+					offending = f != nil || err != nil
+				}
+			}
+			cl.Close()
+		}
+		p.verdict(ctx, 16, fmt.Sprintf("DSEv1 client %d over a v4 backend: USE, then three requests", i), offending, "session-whose-pools-fail")
+	}
+}
+
 func genC17(ctx *Ctx) {
 	r := ctx.Rng
 	c17SysRows(ctx)
+	c17FailedSession(ctx)
 	c17NoReader(ctx)
 	for ci, cfg := range c17Cfgs {
 		p := startC17(cfg)
